@@ -1045,6 +1045,12 @@ pub fn bounds_cases_for(ctx: &Ctx, prop: &str, mmio: bool) -> Vec<Case> {
     all
 }
 
+/// only the MMIO half (C10: a configuration access touches only the device's own region)
+pub fn bounds_cases_mmio(ctx: &Ctx, prop: &str) -> Vec<Case> {
+    let lens = window_lengths(ctx.tier);
+    crate::runner::par_cases(ctx, prop, "bounds-mmio", lens.len() * 4, |i, id| bounds_mmio(ctx, i, id))
+}
+
 pub fn bounds_cases(ctx: &Ctx) -> Vec<Case> {
     bounds_cases_for(ctx, "C07", true)
 }
